@@ -105,7 +105,9 @@ ORDER = ["def", "let", "read", "callthrow", "badprint", "badif", "badwhile", "ba
          "nbspcmd", "unicmd", "widecmd", "nbspsrc", "loadreq", "loadfar", "loadinv", "runspan", "runmid", "evalfar"]
 assert list(REQ) == ORDER, "REQ and ORDER (= Alphabet of spec/JsonSession.tla) must list the same symbols in the same order"
 # the symbols whose effect on later requests is more than an answer: every length-3 history over CORE is played
-CORE = ORDER[:33] + ["nsswitch", "loadfile", "trace", "quit", "nbspcmd", "loadreq", "loadfar"]
+CORE = ["def", "let", "read", "callthrow", "badif", "badwhile", "deftest", "parseerr", "resume", "skip", "replaceT", "replaceBad", "test",
+        "abort", "forget", "type", "stack", "evalupto", "garbage", "stopthrow", "stoparg", "nsswitch", "loadfile", "trace", "quit",
+        "nbspcmd", "loadfar"]
 
 
 def histories(maxlen, simulate=None, seed=0, focus=False, allowed=None):
